@@ -42,6 +42,9 @@ pub struct Builder<'a> {
     pub sinks: Vec<SinkCollector>,
     /// (probe id, description, loop depth)
     pub probe_info: Vec<(u32, String, usize)>,
+    /// (consumer probe, producer probe, stage) for stages that pass elements through unchanged
+    pub edges: Vec<(u32, u32, &'static str)>,
+    cur_tap: u32,
     states: Vec<IterationStateHandle<LoopState>>,
 }
 
@@ -71,6 +74,8 @@ impl<'a> Builder<'a> {
             next_closure: 0,
             sinks: Vec::new(),
             probe_info: Vec::new(),
+            edges: Vec::new(),
+            cur_tap: 0,
             states: Vec::new(),
         }
     }
@@ -79,6 +84,7 @@ impl<'a> Builder<'a> {
     fn tap(&mut self, s: DStream<Rec>, what: &str) -> DStream<Rec> {
         let id = self.next_probe;
         self.next_probe += 1;
+        self.cur_tap = id;
         self.probe_info
             .push((id, what.to_string(), self.states.len()));
         if self.opts.probes {
@@ -135,7 +141,22 @@ impl<'a> Builder<'a> {
 
     pub fn stages(&mut self, mut s: DStream<Rec>, stages: &[Stage]) -> DStream<Rec> {
         for st in stages {
+            let prod = self.cur_tap;
             s = self.stage(s, st);
+            if matches!(
+                st,
+                Stage::Map(_)
+                    | Stage::Filter(_)
+                    | Stage::FilterMap(..)
+                    | Stage::Shuffle
+                    | Stage::Broadcast
+                    | Stage::Replicate(_)
+                    | Stage::Repartition(..)
+                    | Stage::Batch(_)
+                    | Stage::KeyedMap(..)
+            ) {
+                self.edges.push((self.cur_tap, prod, stage_name(st)));
+            }
         }
         s
     }
@@ -406,15 +427,19 @@ impl<'a> Builder<'a> {
                 let mut parts = s.split(2);
                 let main = erase(parts.pop().unwrap());
                 let side = erase(parts.pop().unwrap());
+                let input_tap = self.cur_tap;
                 let side = self.stages(side, branch);
                 self.sink(side, *sink);
+                self.cur_tap = input_tap;
                 main
             }
             Stage::Diamond { left, right, comb } => {
                 let mut parts = s.split(2);
                 let r = erase(parts.pop().unwrap());
                 let l = erase(parts.pop().unwrap());
+                let input_tap = self.cur_tap;
                 let l = self.stages(l, left);
+                self.cur_tap = input_tap;
                 let r = self.stages(r, right);
                 self.combine(l, r, comb)
             }
@@ -432,7 +457,9 @@ impl<'a> Builder<'a> {
                 }
                 let outs = rb.build();
                 let mut merged: Option<DStream<Rec>> = None;
+                let input_tap = self.cur_tap;
                 for (o, b) in outs.into_iter().zip(branches.iter()) {
+                    self.cur_tap = input_tap;
                     let o = self.stages(erase(o), b);
                     let o = erase(o.shuffle());
                     merged = Some(match merged {
